@@ -20,3 +20,9 @@ func VerifAppendMappingToBuffer(
 	}
 	return out, 0, false
 }
+
+// VerifLineOffsetTableFields exposes the unexported fields of a LineOffsetTable
+// (columnsForNonASCII, byteOffsetToFirstNonASCII, byteOffsetToStartOfLine).
+func VerifLineOffsetTableFields(t LineOffsetTable) (columnsForNonASCII []int32, byteOffsetToFirstNonASCII int32, byteOffsetToStartOfLine int32) {
+	return t.columnsForNonASCII, t.byteOffsetToFirstNonASCII, t.byteOffsetToStartOfLine
+}
